@@ -112,7 +112,7 @@ def run_mode(chk, jobs, name, weighted, n, ops_mc, ops_hist, depth, units):
         for h, s in S.prefixes(g, weighted, 2):
             tasks.append({"mode": name, "prefix": h, "state": s, "depth": depth, "weighted": weighted, "unit": unit})
         t0 = time.time()
-        done = common.pool_run(S.walk_task, tasks, lambda r: bool(r["problems"]), stop_after=10)
+        done = S.pool_run(S.walk_task, tasks, lambda r: bool(r["problems"]), stop_after=10)
         if len(done) < len(tasks):
             chk.note("%s: walk stopped after %d of %d prefixes because enough failing histories were collected" % (name, len(done), len(tasks)))
         for t, r in done:
@@ -128,12 +128,12 @@ def run_mode(chk, jobs, name, weighted, n, ops_mc, ops_hist, depth, units):
         chk.part("walk %s unit=%s depth<=%d" % (name, unit, depth), wall_s=round(time.time() - t0, 1))
         # (b) representative histories (deeper)
         deep = [hh for hh in H if len(hh[0]) > depth]
-        chunk = max(1, len(deep) // 256)
-        htasks = [{"mode": name, "histories": deep[i:i + chunk], "weighted": weighted, "unit": unit}
-                  for i in range(0, len(deep), chunk)]
+        chunk = max(1, len(H) // 256)
+        htasks = [{"mode": name, "histories": H[i:i + chunk], "weighted": weighted, "unit": unit, "walk_depth": depth}
+                  for i in range(0, len(H), chunk)]
         t0 = time.time()
-        done = common.pool_run(S.hist_task, htasks, lambda r: bool(r["problems"]), stop_after=10)
-        same = diff = 0
+        done = S.pool_run(S.hist_task, htasks, lambda r: bool(r["problems"]), stop_after=10)
+        same = diff = shown = 0
         for t, r in done:
             chk.cov["evaluations"] += r["leaves"] + r["nodes"]
             chk.cov["traces_validated_against_impl"] += r["nodes"]
@@ -143,8 +143,9 @@ def run_mode(chk, jobs, name, weighted, n, ops_mc, ops_hist, depth, units):
                      private_state_equal_to_ListDictImpl=r["private_same"])
             report(chk, r["problems"], extra)
             same += r["private_same"]
-            for d in r["private_diff"]:
-                diff += 1
+            diff += r["private_ndiff"]
+            for d in r["private_diff"][:max(0, 2 - shown)]:
+                shown += 1
                 chk.note("%s: private state of the real object differs from ListDictImpl after [%s]: code %r, transcription %r "
                          "(not a verdict; TLC's result about the algorithm transfers to the code only where they agree)"
                          % (name, d["history"], d["code"], d["ListDictImpl"]))
@@ -152,9 +153,13 @@ def run_mode(chk, jobs, name, weighted, n, ops_mc, ops_hist, depth, units):
         if samples:
             chk.sample(dict(samples[len(samples) // 2], mode=name, unit=unit, kind="state-covering"))
         chk.part("state-covering histories %s unit=%s depth %d..%d" % (name, unit, depth + 1, ops_hist), wall_s=round(time.time() - t0, 1))
-        if deep and not diff and same:
+        if diff:
+            chk.note("%s unit=%s: the private state differs from ListDictImpl after %d of %d state-covering histories (information only)"
+                     % (name, unit, diff, len(H)))
+        if not diff and same == len(H):
             chk.note("%s unit=%s: items order, _total_weight, max_weight and max_weight_count of the real object equal the ListDictImpl "
-                     "state on all %d state-covering histories (transcription faithful there)" % (name, unit, same))
+                     "state after the shortest history of each of the %d distinct ListDictImpl states (transcription faithful there)"
+                     % (name, unit, same))
     # ---- TLC: the transcription, all histories in the bound -----------------------
     if ops_mc:
         res = jobs[(name, "mc")].result()
